@@ -251,7 +251,33 @@ func execWPair(c *Sx, env *execEnv) (*Sx, []Violation) {
 		viols = append(viols, Violation{Prop: prop, Kind: k, Detail: detail, Case: c.String()})
 	}
 	env.count("pair:" + kind)
+	evalCompare := func() {
+	// eval (CheckIfAllowed on every pair of pods / probe addresses, every protocol, the probe ports) answers the same
+	ea, _ := evalAll(dirA, wa, env, c.String())
+	eb, _ := evalAll(dirB, wb, env, c.String())
+	if sa, sb := ea.String(), eb.String(); sa != sb {
+		k, d := "shuffle-changes-eval", "the answers of eval differ after permuting documents / files / rules: "+sa[:min(80, len(sa))]+" vs "+sb[:min(80, len(sb))]
+		if len(sa) == len(sb) {
+			onlyErr := true
+			for i := range sa {
+				if sa[i] != sb[i] && sa[i] != 'e' && sb[i] != 'e' {
+					onlyErr = false
+				}
+			}
+			if onlyErr && namedPortMayMeetIPGo(wa) {
+				// every differing answer is an error on one side, and the input holds an egress rule with a named port that can
+				// meet an IP destination (the documented error): which rule eval meets first decides
+				k = "shuffle-changes-eval-named-port-error"
+			}
+		}
+		rep("C08", k, d)
+	}
+	env.count("shuffle-eval-compared")
+	}
 	if !ra.ok || !rb.ok {
+		if kind == "shuffle" {
+			evalCompare() // eval answers point by point also where list gives up on the whole input
+		}
 		if ra.ok != rb.ok || ra.errCls != rb.errCls {
 			switch kind {
 			case "reexpress":
@@ -305,6 +331,7 @@ func execWPair(c *Sx, env *execEnv) (*Sx, []Violation) {
 				}
 			}
 		}
+		evalCompare()
 		// and the two layouts have no connectivity difference
 		da := diff.NewDiffAnalyzer(diff.WithLogger(nullLogger{}), diff.WithOutputFormat("txt"))
 		if cd, err := da.ConnDiffFromDirPaths(dirA, dirB); err == nil && !cd.IsEmpty() {
@@ -440,4 +467,26 @@ func firstLine(s string) string {
 		return s[:i]
 	}
 	return s
+}
+
+// namedPortMayMeetIPGo: an egress rule with a named port and no peers or an ipBlock peer
+func namedPortMayMeetIPGo(w *World) bool {
+	for _, o := range w.Objs {
+		if o.Kind != "np" {
+			continue
+		}
+		for _, r := range o.Np.Egress {
+			named, ip := false, len(r.Peers) == 0
+			for _, p := range r.Ports {
+				named = named || p.Kind == "name"
+			}
+			for _, p := range r.Peers {
+				ip = ip || p.IsIP
+			}
+			if named && ip {
+				return true
+			}
+		}
+	}
+	return false
 }
